@@ -413,7 +413,14 @@ func record(checkName string, raw []byte, out Outcome) {
 				st.sampleSeen[c] = true
 			}
 			cp := append([]byte(nil), raw...)
-			cls := append([]string(nil), out.Classes...)
+			seenCls := map[string]bool{}
+			var cls []string
+			for _, c := range out.Classes {
+				if !seenCls[c] {
+					seenCls[c] = true
+					cls = append(cls, c)
+				}
+			}
 			sort.Strings(cls)
 			st.samples = append(st.samples, sample{Check: checkName, Classes: cls, Case: cp})
 		}
